@@ -19,15 +19,15 @@ from .c01 import export_image
 INVS = ["LayoutSane", "WindowIsStartToModeEnd", "OrphanPerformancesAppearOnce", "Emit"]
 
 
-def design_cfg(ncl, ns, mc, mperf=2):
+def design_cfg(ncl, ns, mc, mperf=2, shared=False):
     c = dict(C=4, NClusters=ncl, Mode="exhaustive", MaxSamples=ns, MaxChain=mc, MaxPartials=1, MaxPatches=1,
-             MaxPerfs=mperf, MaxVols=1, EmitCases=False)
+             MaxPerfs=mperf, MaxVols=1, Shared=shared, EmitCases=False)
     return tlc.cfg_text(constants=c, invariants=INVS + ["DecodeOfEncodeIsChain"])
 
 
-def real_cfg():
+def real_cfg(shared=True):
     c = dict(C=9216, NClusters=40, Mode="classes", MaxSamples=3, MaxChain=3, MaxPartials=2, MaxPatches=2, MaxPerfs=2,
-             MaxVols=2, EmitCases=True)
+             MaxVols=2, Shared=shared, EmitCases=True)
     return tlc.cfg_text(constants=c, invariants=INVS)
 
 
@@ -115,11 +115,23 @@ def run(chk: Check):
                 "modes, all (start, sustain end, release end) triples, performance/volume/orphan topologies; replay: TLC-simulated "
                 "images at the real constants over shapes (1-3 samples, 1-2 partials/patches/performances, 0-2 volumes, shared and "
                 "orphaned performances), chain classes, cluster_top 0/1, 7 modes, 6 frequency codes, FAT version flag 1/2, five "
-                "point classes incl. windows filling the last cluster exactly; non-trivial = a sample spans >= 2 data clusters")
+                "point classes incl. windows filling the last cluster exactly, two samples sharing one chain behind different "
+                "leading-cluster offsets; non-trivial = a sample spans >= 2 data clusters")
     for ncl, ns, mc in ([(6, 1, 2)] if not thorough else [(7, 1, 3), (6, 2, 1)]):
         chk.run_tlc("RolandImage", design_cfg(ncl, ns, mc), label=f"design tiny clusters<{ncl} samples<={ns} chain<={mc}",
                     timeout_s=3000, heap="8g")
+    # two samples in ONE cluster chain behind different leading-cluster offsets (tiny geometry, design level)
+    if thorough:
+        chk.run_tlc("RolandImage", design_cfg(5, 2, 2, mperf=1, shared=True), label="design tiny clusters<5 samples<=2 chain<=2, shared chains (exhaustive)",
+                    timeout_s=3000, heap="8g")
+    else:
+        chk.run_tlc("RolandImage", design_cfg(6, 2, 2, mperf=1, shared=True), simulate="num=40", depth=12, seed=chk.seed, workers=8,
+                    label="design tiny clusters<6 samples<=2 chain<=2, shared chains (simulated behaviours)", timeout_s=600)
     cases = generate(chk, 1200 if thorough else 96, chk.seed)
+    sharing = [c for c in cases if len({tuple(s["chain"]) for s in c["img"]["samples"]}) < len(c["img"]["samples"])]
+    chk.extra["images_with_a_shared_chain"] = len(sharing)
+    if not sharing:
+        raise tlc.TlcError("no generated Roland image stores two samples in one cluster chain")
     if len(cases) < (300 if thorough else 40):
         raise tlc.TlcError(f"only {len(cases)} images generated")
     if not thorough and len(cases) > 220:          # every Finish has 4 successors (FAT version x spread): keep a stride
